@@ -334,6 +334,7 @@ func checkC20(c *core.Ctx) error {
 	checkSvdScan(c)
 	checkRetryShrinks(c)
 	checkAxisExtents(c)
+	checkRotationDivisors(c)
 	checkOptionSwitches(c)
 	checkOptionSpreading(c)
 	checkADGuards(c)
